@@ -33,7 +33,7 @@ WFVar(f, v) ==
   IF \E i \in 1..Len(v.dims) : ~HasDim(f, v.dims[i]) THEN "variable " \o v.name \o ": dimension not in file"
   ELSE IF Len(v.shape) # Len(v.dims) THEN "variable " \o v.name \o ": rank differs from number of dimensions"
   ELSE IF \E i \in 1..Len(v.dims) : v.shape[i] # DimLen(f, v.dims[i]) THEN "variable " \o v.name \o ": shape differs from dimension lengths"
-  ELSE IF Len(v.vals) # ProdSeq(v.shape) \/ Len(v.mask) # ProdSeq(v.shape) THEN "variable " \o v.name \o ": cell count"
+  ELSE IF v.enc # "none" /\ (Len(v.vals) # ProdSeq(v.shape) \/ Len(v.mask) # ProdSeq(v.shape)) THEN "variable " \o v.name \o ": cell count"
   ELSE IF \E i \in 1..Len(v.attrs) : ~v.attrs[i].ok THEN "variable " \o v.name \o ": listed attribute not retrievable"
   ELSE IF ~NoDup([i \in 1..Len(v.attrs) |-> v.attrs[i].k]) THEN "variable " \o v.name \o ": duplicate attribute"
   ELSE ""
